@@ -29,6 +29,9 @@ def _factor_box(rng, n, ndim):
     return [int(d) for d in dims]
 
 
+INIT_DTYPES = ["float64"] * 7 + ["int32"] * 2 + ["float32"]
+
+
 def random_spec(rng, *, S=None, avg=None, smin=3, smax=40, amax=5, emax=5, gamma_choices=None):
     S = int(S if S is not None else rng.integers(smin, smax + 1))
     A = int(rng.integers(2, amax + 1)) if rng.random() > 0.06 else 1   # now and then a single action
@@ -130,6 +133,14 @@ def build(spec):
         prob = np.concatenate([np.full((S, A, 1), 0.2), rest * 0.8], axis=2)
         rew = rew + 1.0 * scale
 
+    if spec.get("dyadic"):
+        # exact-arithmetic class: dyadic probabilities, small integer rewards (with a dyadic discount factor every
+        # iterate and every convergence measure is computed without any rounding, in any summation order)
+        pat = {1: [1.0], 2: [0.5, 0.5], 4: [0.25, 0.25, 0.25, 0.25]}[E]
+        if E == 4 and r.random() < 0.5:
+            pat = [0.5, 0.25, 0.125, 0.125]
+        prob = np.broadcast_to(np.array(pat), (S, A, E)).copy()
+        rew = r.integers(-8, 9, size=(S, A, E)).astype(float)
     prob = prob / prob.sum(-1, keepdims=True)
     if spec.get("intrew"):
         rew = np.round(rew)                     # integer-valued; the Problem hands them out as int32
@@ -152,6 +163,16 @@ def build(spec):
         init = r.normal(size=S) * scale
     elif spec["init"] == "far":
         init = r.normal(size=S) * scale * 1e3 + 50 * scale
+    # dtype the problem's initial_value returns: mostly float64, now and then integers ("price * stock", "return 0")
+    # or float32 - the documented return type is a float, and Python numbers of either kind are what users write
+    init_dtype = INIT_DTYPES[(int(spec.get("gseed", 0)) // 7) % len(INIT_DTYPES)]
+    if init is None:
+        pass                      # init_dtype int32 then means a literal integer zero ("return 0")
+    elif init_dtype == "int32":
+        init = np.round(init) if np.abs(init).max() >= 2 else np.round(init / scale * 3)
+        init = np.clip(init, -2e9, 2e9)
+    elif init_dtype == "float32":
+        init = init.astype(np.float32).astype(float)
     ipol = None
     if spec["ipol"] == "random":
         ipol = r.integers(0, A, size=S)
@@ -159,7 +180,7 @@ def build(spec):
         ipol = (rew * prob).sum(-1).argmin(1)
     return dict(nxt=nxt.astype(np.int64), rew=rew.astype(float), prob=prob.astype(float), intrew=bool(spec.get("intrew")),
                 sbox=sbox, abox=abox, ebox=ebox, sorigin=so, sperm=sperm,
-                init=init, ipol=ipol)
+                init=init, ipol=ipol, init_dtype=init_dtype)
 
 
 def box_rows(box, origin):
@@ -179,7 +200,8 @@ def zero_vector_class(t):
 
 def interface_class(spec, t):
     return (f"s{spec['sdim']}a{spec['adim']}e{spec['edim']}",
-            spec["order"], ("p1" if spec["prob1"] else "p0") + ("+intrew" if spec.get("intrew") else ""), zero_vector_class(t))
+            spec["order"], ("p1" if spec["prob1"] else "p0") + ("+intrew" if spec.get("intrew") else "")
+            + {"int32": "+intinit", "float32": "+f32init"}.get(t.get("init_dtype"), ""), zero_vector_class(t))
 
 
 def gamma_bucket(g):
